@@ -84,7 +84,7 @@ def interval_step(genotype: A[i1, 2], reads: A[f8, 3], llk: float, log_unique_ha
     requires(0 <= temp, temp <= 1, 0 <= inbreeding, inbreeding < 1, finite(log_unique_haplotypes))
     requires(implies(interval is not None, len(interval) == 2 and 0 <= interval[0] and interval[0] <= interval[1] and interval[1] <= genotype.shape[1]))
     requires(implies(read_counts is not None, len(read_counts) == len(reads) and forall(0, len(reads), lambda r: read_counts[r] >= 1)))
-    requires(forall(lambda r, y, a: not isninf(reads[r, y, a]) and (isnan(reads[r, y, a]) or reads[r, y, a] >= 0)))
+    requires(READSOK(reads, len(reads), reads.shape[1], reads.shape[2]))
     # NA (ghost): the number of alleles of each SNV
     requires(forall(0, N, lambda y: 2 <= NA[y] and NA[y] <= reads.shape[2]))
     requires(VALIDG(genotype, NA, P, N), POSREADS(reads, CN, NA, P, N, len(reads)))
@@ -136,7 +136,7 @@ def compound_step(genotype: A[i1, 2], reads: A[f8, 3], llk: float, intervals: A[
     requires(intervals.shape[1] == 2)
     requires(forall(0, len(intervals), lambda r: 0 <= intervals[r, 0] and intervals[r, 0] <= intervals[r, 1] and intervals[r, 1] <= genotype.shape[1]))
     requires(implies(read_counts is not None, len(read_counts) == len(reads) and forall(0, len(reads), lambda r: read_counts[r] >= 1)))
-    requires(forall(lambda r, y, a: not isninf(reads[r, y, a]) and (isnan(reads[r, y, a]) or reads[r, y, a] >= 0)))
+    requires(READSOK(reads, len(reads), reads.shape[1], reads.shape[2]))
     requires(forall(0, N, lambda y: 2 <= NA[y] and NA[y] <= reads.shape[2]))
     requires(VALIDG(genotype, NA, P, N), POSREADS(reads, CN, NA, P, N, len(reads)))
     requires(llk == LLK(reads, CN, genotype, P, N, len(reads)))
